@@ -397,6 +397,11 @@ def slot_code(s):
     return SPECIAL[s]
 
 
+OP_KEYWORD_ORDER = ['b', 'B', 'b*', 'B*', 'BDC', 'BI', 'BMC', 'BT', 'BX', 'c', 'cm', 'CS', 'cs', 'd', 'd0', 'd1', 'Do', 'Do0', 'DP', 'EI',
+                    'EMC', 'ET', 'EX', 'f', 'F', 'f*', 'G', 'g', 'gs', 'h', 'i', 'ID', 'j', 'J', 'K', 'k', 'l', 'm', 'M', 'MP', 'n',
+                    'q', 'Q', 're', 'RG', 'rg', 'ri', 's', 'S', 'SC', 'SCN', 'sc', 'scn', 'sh', 'T*', 'Tc', 'Td', 'TD', 'Tf', 'Tj',
+                    'TJ', 'TL', 'Tm', 'Tr', 'Ts', 'Tw', 'Tz', 'v', 'w', 'W', 'W*', 'y', "'", '"']
+
 EFFECT = {"none": 0, "compat_true": 1, "compat_false": 2, "error": 3, "inline": 4}
 
 
@@ -629,11 +634,15 @@ def extract(g, X):
     def serstr():
         impl = prim[prim.index("impl PdfString {"):]
         b = fn_text(impl, r"pub\s+fn\s+serialize\s*\(", "    ")
-        m = re.search(r"any\(\|&b\|\s*b\s*>=\s*(0x[0-9a-fA-F]+|\d+)\)", b)
-        e = re.search(r"((?:b'(?:\\.|[^'\\])'\s*\|\s*)*b'(?:\\.|[^'\\])')\s*=>\s*write!\(out,\s*r\"\\\"\)", b)
+        (params, expr), = X.closures(b, "any")
+        hexed = X.byte_set(expr, X.closure_var(params), prim)
+        thr = min(hexed)
+        if hexed != set(range(thr, 256)):
+            raise ValueError("hex condition is not a threshold")
+        e = re.search(r"((?:" + X.BYTE + r"\s*\|\s*)*" + X.BYTE + r")\s*=>\s*write!\(\s*\w+\s*,\s*r\"\\\"\s*\)", b)
         if '"{:02x}"' not in b or 'r"("' not in b or 'r")"' not in b or '"<"' not in b or '">"' not in b:
             raise ValueError("string delimiters / hex format changed")
-        return str(X.lit(m.group(1))), clist(str(char_lit(t)) for t in e.group(1).split("|"))
+        return str(thr), clist(str(v) for v in X.ordered(X.pattern_set(e.group(1)), [92, 40, 41]))
     g.attempt([("string_hex_from", "N"), ("string_escaped", "list N")], "primitive.rs:PdfString::serialize", serstr)
 
     add_body = X.fn_body(cont, "add")
@@ -799,12 +808,14 @@ def extract(g, X):
             else:
                 eff = "[%d]" % EFFECT[effect]
             for kw in kws:
-                out.append("(%s, (%s, (%s, %s)))" % (
+                out.append((kw, "(%s, (%s, (%s, %s)))" % (
                     cbytes(kw), cbytes(shape),
-                    clist("(%d, %s)" % (c, clist(str(slot_code(s)) for s in sl)) for c, sl in pushes), eff))
+                    clist("(%d, %s)" % (c, clist(str(slot_code(s)) for s in sl)) for c, sl in pushes), eff)))
         if seen_catch != 2:
             raise ValueError("catch-all arms: %d" % seen_catch)
-        return clist(out)
+        # the string patterns are disjoint (a keyword listed twice is an error), so the order of the arms is immaterial:
+        # rows are listed in the order Generated.v has always had (OP_KEYWORD_ORDER), unknown keywords after them
+        return clist(row for _, row in X.ordered_by_key(out, OP_KEYWORD_ORDER))
     g.attempt([("op_read_table", "list (list N * (list N * (list (N * list N) * list N)))")],
               "content.rs:OpBuilder::add", read_table)
 
